@@ -1258,6 +1258,9 @@ def make_scenario(seed, profile='general'):
         if P.get('foreign_at_targets') and rnd.random() < 0.5:
             return {'op': 'ext', 'do': 'write', 'p': rnd.choice(LEAVES + DIRS),
                     'c': rnd.choice(['c8', 'c9']), 'sz': rnd.choice(SIZES)}
+        if P.get('foreign') and rnd.random() < 0.12:
+            # a dangling symbolic link among the foreign things: no query sees it, but its directory is not empty
+            return {'op': 'ext', 'do': 'dangle', 'p': rnd.choice(FOREIGN + [['d', 'dang'], ['g', 'dang'], ['d', 'e', 'dang']])}
         if P.get('foreign') and rnd.random() < 0.5:
             # (also names next to the cache file that a temp-file-and-rename or lock-file scheme might pick)
             return {'op': 'ext', 'do': 'write', 'p': rnd.choice(FOREIGN + [['kz'], ['k.tmp'], ['k.bak'], ['k.lock'], ['.k.tmp']]),
